@@ -12,6 +12,7 @@ EXPLANATION = (
     "admitted batch; (R4) duplicate handling is read-only; (R5) causal parents are sorted and de-duplicated before "
     "hashing. Equality of committed ticks across arrival orders is NOT decided."
     ' Replaying a persisted receipt correlation re-records the committed ingress on every success path.'
+    ' Round 5: (R3) HeadInbox::ingest is called only by WorldlineRuntime::ingest, i.e. only behind the committed-ingress gate (who-may-call); (R5) causal parents are sorted and de-duplicated by their own total order, not through a projection that lets different parents tie.'
 )
 ASSUMPTIONS = ["BLAKE3 collision resistance", "BTreeMap/BTreeSet iterate in key order"]
 FLOOR = 35
